@@ -50,6 +50,9 @@ type c12 struct {
 	incarn    int
 	crashAfterPublish bool
 	published int
+	hist      *certgen.History
+	gen       *certgen.Gen
+	finalized chan struct{}
 }
 
 func (s *c12) onPublish(data []byte) {
@@ -100,6 +103,49 @@ func (s *c12) start() {
 	s.runner = r
 }
 
+// lifecycle is one whole process lifetime with the runner's real Start and Stop (no broadcast
+// request arrives during it): the certificates the network produced meanwhile, all for instances
+// before the one the node is in, are in the store, so that the finalize loop of host.go finalizes
+// the latest one and purges the WAL with the bound it computes. A normal incarnation follows.
+func (s *c12) lifecycle(inst uint64) {
+	target := uint64(1)
+	if inst > 2 {
+		target = 1 + uint64(s.c.Intn(int(inst)-1)) // 1..inst-1
+	}
+	for uint64(len(s.hist.Certs)) <= target {
+		cert := s.gen.Extend(s.hist, 2)
+		if err := s.cs.Put(bg, cert); err != nil {
+			kernel.Infra("certstore.Put of a generated certificate: %v", err)
+		}
+	}
+	latest := s.cs.Latest().GPBFTInstance
+	if latest >= inst {
+		return
+	}
+	if s.cancel != nil {
+		s.cancel()
+	}
+	for len(s.finalized) > 0 {
+		<-s.finalized
+	}
+	ctx, cancel := context.WithCancel(context.Background())
+	s.cancel = cancel
+	s.incarn++
+	ps, err := pubsub.NewGossipSub(ctx, sharedHost)
+	if err != nil {
+		kernel.Infra("pubsub: %v", err)
+	}
+	m := s.m
+	m.NetworkName = gpbft.NetworkName(fmt.Sprintf("verif-%d-%d", s.r.Lines(), s.incarn))
+	s.r.Tracef("lifecycle inc=%d latest_cert=%d node_instance=%d", s.incarn, latest, inst)
+	s.r.Fault("restart_with_start_stop")
+	s.disk.CrashAt = -1
+	if err := f3.VerifLifecycle(ctx, "/wal", s.cs, s.ec, ps, s.sig, m, sharedHost.ID(), s.finalized, 20*time.Second); err != nil {
+		kernel.Infra("runner lifecycle: %v", err)
+	}
+	s.start()
+}
+
 func runC12(prop, tier string, c *kernel.Chooser, r *kernel.Recorder) *kernel.Violation {
 	if sharedHost == nil {
 		h, err := libp2p.New(libp2p.NoListenAddrs)
@@ -115,14 +161,24 @@ func runC12(prop, tier string, c *kernel.Chooser, r *kernel.Recorder) *kernel.Vi
 	s.disk.PartialOnCrash = func(n int) int { return c.Intn(n + 1) }
 	s.disk.Trace = func(l string) { r.Tracef("fs %s", l) }
 	g := certgen.New(c, false)
-	tbl := g.InitialTable(3)
+	s.gen = g
+	s.hist = g.NewHistory(0, 0, 3, 2)
+	tbl := s.hist.Tables[0]
 	var err error
 	s.cs, err = certstore.CreateStore(bg, simds.New(), 0, tbl)
 	if err != nil {
 		kernel.Infra("CreateStore: %v", err)
 	}
 	s.ec = ecworld.New(time.Date(2024, 1, 1, 0, 0, 0, 0, time.UTC), 30*time.Second, tbl)
+	s.finalized = make(chan struct{}, 64)
+	s.ec.Fail = func(method string) error {
+		if method == "Finalize" {
+			s.finalized <- struct{}{}
+		}
+		return nil
+	}
 	s.m = manifest.LocalDevnetManifest()
+	s.m.EC.Finalize = true
 	s.m.PubSub.CompressionEnabled = c.Chance(300)
 	s.start()
 	if s.viol != nil {
@@ -163,7 +219,13 @@ func runC12(prop, tier string, c *kernel.Chooser, r *kernel.Recorder) *kernel.Vi
 				r.Probe("request_for_older_instance")
 			}
 		}
-		op := c.Pick([]int{60, 15, 10, 15})
+		op := c.Pick([]int{60, 15, 10, 15, 8})
+		if op == 4 {
+			if inst >= 2 {
+				s.lifecycle(inst)
+			}
+			continue
+		}
 		crashed := false
 		var p any
 		func() {
